@@ -318,6 +318,7 @@ fn apply(pp: &mut ParsedPacket, model: &MMsg, op: &Op, prop: &str) -> Result<Out
             let mut steps = 0;
             // index into `before` of the record under the cursor: found by content (records are made distinct by the generator's TTLs)
             let mut deleted: Vec<bool> = vec![false; before.len()];
+            let mut seen: Vec<bool> = vec![false; before.len()];
             while let Some(mut item) = it {
                 steps += 1;
                 if steps > 10 * (before.len() + 2) { return Err("walk with deletions does not terminate".into()); }
@@ -325,6 +326,7 @@ fn apply(pp: &mut ParsedPacket, model: &MMsg, op: &Op, prop: &str) -> Result<Out
                 let idx = before.iter().position(|r| r.ttl == ttl && r.rtype == ty);
                 let idx = match idx { Some(i) => i, None => return Err("walk yielded a record that is not in the section".into()) };
                 if deleted[idx] { yielded_after_delete = true; }
+                seen[idx] = true;
                 if (mask >> idx) & 1 == 1 && !deleted[idx] {
                     if let Err(e) = item.delete() { return Err(format!("delete failed: {}", e)); }
                     match item.delete() { Err(_) => {}, Ok(()) => return Err("second delete through the same cursor succeeded".into()) }
@@ -333,6 +335,8 @@ fn apply(pp: &mut ParsedPacket, model: &MMsg, op: &Op, prop: &str) -> Result<Out
                 it = item.next();
             }
             if yielded_after_delete { return Err("a deleted record was yielded again".into()); }
+            // "every surviving record is yielded at least once" (all but the OPT record, which these walks never show)
+            for (i, r) in before.iter().enumerate() { if !deleted[i] && !seen[i] && r.rtype != 41 { return Err(format!("surviving record {} of section {} was never yielded by the walk", i, s)); } }
             for (i, r) in before.iter().enumerate() { if !deleted[i] || r.rtype == 41 && (mask >> i) & 1 == 1 && false { if !deleted[i] { survivors.push(r.clone()); } } }
             m.secs[(*s - 1) as usize] = survivors;
         }
@@ -532,6 +536,23 @@ pub fn gen(prop: &str, r: &mut Rng, _filter: &str) -> Vec<String> {
             if r.chance(1, 8) { t = { let mut v = vec![]; for _ in 0..3 { v.push(63); v.extend(std::iter::repeat(b't').take(63)); } v.push(40); v.extend(std::iter::repeat(b'u').take(40)); v.push(0); v } }
             if s.len() <= 1 || t.len() <= 1 { return vec![]; }
             vec![prop.into(), "ren".into(), hex(&p), hex(&t), hex(&s), r.below(2).to_string()]
+        }
+        "c10" if r.chance(1, 12) => {
+            // the exact boundary of the size cap: a pointer-free packet of 8192 - 17 + d bytes (d = -1, 0, +1, +2), then the 17-byte record "a. 60 IN A 1.2.3.4"
+            let d = r.below(4) as usize;
+            let target = 8192 - 17 - 1 + d;
+            let mut q: Vec<u8> = vec![0x12, 0x34, 0x80, 0, 0, 1, 0, 0, 0, 0, 0, 0, 1, b'q', 0, 0, 1, 0, 1];
+            let mut n = 0u16;
+            while q.len() < target {
+                let room = target - q.len();
+                // one opaque record: 1 (root owner) + 10 + data; the last one takes exactly what is left (at least 11 bytes)
+                let data = if room >= 11 + 300 + 11 { 300 } else { room - 11 };
+                q.push(0); q.extend_from_slice(&[0, 99, 0, 1, 0, 0, 0, 5]); q.push((data >> 8) as u8); q.push(data as u8); q.extend(std::iter::repeat(7u8).take(data));
+                n += 1;
+            }
+            q[6] = (n >> 8) as u8; q[7] = n as u8;
+            if q.len() != target || wire::parse_ref(&q).is_none() { return vec![]; }
+            vec![prop.into(), "seq".into(), hex(&q), op_to_str(&Op::Insert(1 + r.below(3) as u8, "a. 60 IN A 1.2.3.4".into()))]
         }
         "c10" if r.chance(1, 8) => {
             // the size cap: a response whose wire form is small but whose decompressed form is near or beyond 8192 bytes, then one insertion
